@@ -32,3 +32,25 @@ Definition dir_name (lowercase_names : bool) (stype : list N) : list N :=
 Definition gz_ext : list N := [46; 103; 122]%N.
 Definition object_file_name (uuid ext : list N) (compress : bool) : list N :=
   uuid ++ ext ++ (if compress then gz_ext else []).
+
+(* ---------------------------------------------------------------- names of object files, byte level *)
+Definition is_hex (c : N) : bool :=
+  is_digit c || (N.leb 97 c && N.leb c 102) || (N.leb 65 c && N.leb c 70).
+
+(* sod.go uuidRegexp: (?i:^[A-F0-9]{8}-[A-F0-9]{4}-[A-F0-9]{4}-[A-F0-9]{4}-[A-F0-9]{12}$) *)
+Fixpoint shaped_from (i : nat) (s : list N) : bool :=
+  match s with
+  | [] => true
+  | c :: r =>
+      (if Nat.eqb i 8 || Nat.eqb i 13 || Nat.eqb i 18 || Nat.eqb i 23 then N.eqb c 45 else is_hex c)
+      && shaped_from (S i) r
+  end.
+Definition uuid_shaped (s : list N) : bool := Nat.eqb (length s) 36 && shaped_from 0 s.
+
+(* utils.go uuidExt: a uuid is 36 bytes long; the extension is what follows *)
+Definition uuid_ext (name : list N) : list N * list N :=
+  if Nat.leb 36 (length name) then (firstn 36 name, skipn 36 name) else (name, []).
+
+(* utils.go uuidsFromDir: the uuid a directory entry is listed under, if any *)
+Definition listed_uuid (name : list N) : option (list N) :=
+  let u := fst (uuid_ext name) in if uuid_shaped u then Some u else None.
